@@ -133,12 +133,16 @@ pub struct RawResult {
     pub trace: Vec<String>,
     pub ops: Vec<String>,
     pub imp: Vec<String>,
+    pub handler: Vec<String>,
+    pub reader_mode: u8,
 }
 
 pub fn run_one(seed: u64) -> RawResult {
     let mut rng = Rng::new(seed);
     v::clock::reset();
-    let tables = make_tables(2, 8);
+    v::probe::enable();
+    let _ = v::probe::take();
+    let tables = make_tables(2, 92);
     // node 0: beetswap; node 1: raw peer
     let kp0 = keypair_of(0);
     let kp1 = keypair_of(1);
@@ -172,11 +176,16 @@ pub fn run_one(seed: u64) -> RawResult {
     swarm1.listen_on(addr1).expect("listen");
     // content of the beetswap node
     let mut content: BTreeMap<u64, ()> = BTreeMap::new();
-    for k in 0..6u64 {
+    for k in [0u64, 1, 2, 3, 4, 5, 90, 91] {
         if rng.chance(2, 3) {
             content.insert(k, ());
         }
     }
+    // how the raw peer treats the streams the node opens towards it: 0 reads promptly, 1 reads
+    // slowly (back-pressure on the node's sink), 2 drops the stream after a few bytes
+    let reader_mode = *rng.pick(&[0u8, 0, 1, 1, 2]);
+    let reader_delay = *rng.pick(&[20u32, 200, 1000]);
+    let reader_cut = *rng.pick(&[0usize, 10, 5000, 300_000]);
     // the raw peer's script: several streams, each a list of items
     let protocol = StreamProtocol::new("/ipfs/bitswap/1.2.0");
     let nstreams = 2 + rng.below(4);
@@ -190,12 +199,12 @@ pub fn run_one(seed: u64) -> RawResult {
             } else if rng.chance(1, 4) {
                 items.push(Item::Empty(rng.below(3) as u8));
             } else {
-                items.push(Item::Good(rng.below(6) as u64));
+                items.push(Item::Good(*rng.pick(&[0u64, 1, 2, 3, 4, 5, 90, 91, 90])));
             }
         }
         script.push(items);
     }
-    let mut trace = vec![format!("seed={seed} content={:?} script={script:?}", content.keys().collect::<Vec<_>>())];
+    let mut trace = vec![format!("seed={seed} content={:?} reader_mode={reader_mode} delay={reader_delay} cut={reader_cut} script={script:?}", content.keys().collect::<Vec<_>>())];
     // expected: wantlists of good frames that precede every bad frame of their stream
     let mut expected: Vec<u64> = vec![];
     for items in &script {
@@ -234,11 +243,20 @@ pub fn run_one(seed: u64) -> RawResult {
     let reader: BoxFut = Box::pin(async move {
         while let Some((_peer, mut stream)) = incoming.next().await {
             let mut buf = BytesMut::new();
-            let mut tmp = [0u8; 4096];
+            let mut tmp = vec![0u8; 65536];
+            let mut total = 0usize;
             loop {
+                if reader_mode == 1 {
+                    YieldN(reader_delay).await;
+                }
+                if reader_mode == 2 && total >= reader_cut {
+                    // drop the stream without reading further
+                    break;
+                }
                 match stream.read(&mut tmp).await {
                     Ok(0) | Err(_) => break,
                     Ok(n) => {
+                        total += n;
                         buf.extend_from_slice(&tmp[..n]);
                         while let Ok(Some(m)) = v::codec_decode(&mut buf) {
                             recv2.lock().unwrap().push(m);
@@ -280,7 +298,7 @@ pub fn run_one(seed: u64) -> RawResult {
     let mut idle_rounds = 0;
     loop {
         steps += 1;
-        if steps > 400_000 {
+        if steps > 3_000_000 {
             violations.push(("C08".into(), "the node and the raw peer did not become idle (possible busy loop)".into()));
             break;
         }
@@ -410,7 +428,8 @@ pub fn run_one(seed: u64) -> RawResult {
         }
     }
     for k in expected.iter() {
-        if content.contains_key(k) && !blocks.contains_key(k) {
+        // (a raw peer that drops the node's streams loses blocks legitimately)
+        if reader_mode != 2 && content.contains_key(k) && !blocks.contains_key(k) {
             violations.push(("C06".into(), format!("the raw peer wanted cid {k}, the node holds it, but no block arrived")));
             break;
         }
@@ -422,19 +441,24 @@ pub fn run_one(seed: u64) -> RawResult {
         }
     }
     trace.push(format!("blocks received by the raw peer: {blocks:?}"));
-    RawResult { violations, trace, ops: r.ops.clone(), imp: r.imp.clone() }
+    RawResult { violations, trace, ops: r.ops.clone(), imp: r.imp.clone(), handler: r.handler.clone(), reader_mode }
 }
 
 pub fn raw_stream(seed: u64, runs: usize, out: &str, name: &str) -> Sink {
     let mut sink = Sink::default();
     let mut net = vec![];
+    let mut hlog: Vec<String> = vec![];
     for r in 0..runs {
         let run_seed = seed.wrapping_mul(7_000_003).wrapping_add(r as u64);
         let res = match std::panic::catch_unwind(|| run_one(run_seed)) {
             Ok(res) => res,
-            Err(e) => RawResult { violations: vec![("C08".into(), format!("panic with a raw peer: {}", crate::exec::panic_msg(e)))], trace: vec![format!("seed={run_seed}")], ops: vec![], imp: vec![] },
+            Err(e) => RawResult { violations: vec![("C08".into(), format!("panic with a raw peer: {}", crate::exec::panic_msg(e)))], trace: vec![format!("seed={run_seed}")], ops: vec![], imp: vec![], handler: vec![], reader_mode: 9 },
         };
         sink.count("simraw.runs");
+        sink.count(&format!("simraw.reader-mode-{}", res.reader_mode));
+        for h in &res.handler {
+            hlog.push(format!("r={r} n=0 {h}"));
+        }
         let first_line = sink.ops.len();
         for (o, i) in res.ops.iter().zip(res.imp.iter()) {
             sink.push(o.clone(), i.clone(), "-".into());
@@ -449,5 +473,7 @@ pub fn raw_stream(seed: u64, runs: usize, out: &str, name: &str) -> Sink {
     }
     std::fs::create_dir_all(out).ok();
     std::fs::write(format!("{out}/{name}.net.json"), format!("[{}]", net.join(",\n"))).expect("write net file");
+    std::fs::write(format!("{out}/{name}.handler"), hlog.join("\n") + "\n").expect("write handler log");
+    sink.add("sim.handler-records", hlog.len() as u64);
     sink
 }
